@@ -31,7 +31,12 @@ def masks_for(lentil, rng):
     out.append(('hexagon', lentil.hexagon((25, 24), 10.3, antialias=False)))
     seg = lentil.hex_segments(1, 4.3, 1.0, antialias=False, flatten=True)
     out.append(('segmented', seg))
-    return [(n, (m > 0).astype(int)) for n, m in out]
+    out = [(n, (m > 0).astype(int)) for n, m in out]
+    # masks whose non-zero values are not all 1 (antialiased edge, amplitude-valued): only the support may matter
+    aa = lentil.circle((24, 25), 9.3, shift=(1, -1), antialias=True)
+    out.append(('circle-antialiased', aa))
+    out.append(('hexagon-amplitude', lentil.hexagon((25, 24), 10.3, antialias=False) * rng.choice((0.5, 3.0))))
+    return out
 
 
 def run(ctx):
@@ -62,15 +67,20 @@ def run(ctx):
             modes = [assignments[a][k - 1] for k in M]
             kw = {}
             if supplied:
-                rho, theta = lentil.zernike_coordinates(mask, shift=(0.3, -0.4), rotate=20)
+                # two different coordinate sets are used with the same mask and modes (alternating), so that nothing
+                # remembered from one call can leak into the other
+                alt = (len(M) + mi + a) % 2
+                rho, theta = lentil.zernike_coordinates(mask, shift=(0.3, -0.4) if alt else (-1.2, 0.7), rotate=20 if alt else -35)
                 kw = {'rho': rho, 'theta': theta}
+                lentil.zernike_fit(np.zeros(mask.shape), mask, modes, normalize=normalize,
+                                   **dict(zip(('rho', 'theta'), lentil.zernike_coordinates(mask, shift=(-1.2, 0.7) if alt else (0.3, -0.4), rotate=-35 if alt else 20))))
             basis = lentil.zernike_basis(mask, modes, vectorize=True, normalize=normalize, **kw)
-            cond = np.linalg.cond(basis[:, mask.ravel() > 0])
+            cond = np.linalg.cond(basis[:, mask.ravel() != 0])
             ctx.case((tuple(M), name, a, normalize, supplied))
-            if not np.isfinite(cond) or cond > 1e8:
+            if not np.isfinite(cond) or cond > 1e10:
                 nskip += 1
                 continue
-            tol = 1e-9 * cond
+            tol = 1e-12 * cond + 1e-10        # least squares loses about eps*cond; two orders of margin
             sig = {'modes_contiguous_from_1': modes == list(range(1, len(modes) + 1)), 'normalize': normalize, 'supplied_coordinates': supplied,
                    'nmodes': len(modes)}
             detail = {'mask': name, 'modes': modes, 'normalize': normalize, 'supplied_coordinates': supplied}
@@ -85,22 +95,39 @@ def run(ctx):
                 ctx.violation(dict(sig, kind='fit-of-compose'), dict(detail, coefficients=c, fitted=fit), case=None)
             if normalize:
                 # programs 2-4 (zernike_remove has no normalisation switch; it removes a least-squares component either way)
-                opd_r = nr.normal(size=mask.shape) * mask
+                opd_r = nr.normal(size=mask.shape) * (mask != 0)
                 try:
                     res1 = lentil.zernike_remove(opd_r, mask, modes, **kw)
                 except Exception as ex:
                     ctx.violation(dict(sig, kind='remove-' + type(ex).__name__), dict(detail, error=repr(ex)[:200]), case=None)
                     continue
-                f1 = lentil.zernike_fit(res1 * mask, mask, modes, **kw)
+                f1 = lentil.zernike_fit(res1 * (mask != 0), mask, modes, **kw)
                 scale = 1 + np.abs(opd_r).max()
                 if not np.allclose(f1, 0, atol=tol * scale):
                     ctx.violation(dict(sig, kind='residual-still-contains-removed-modes'), dict(detail, fitted_after_remove=f1), case=None)
                 res2 = lentil.zernike_remove(res1, mask, modes, **kw)
-                if not np.allclose((res2 - res1) * mask, 0, atol=tol * scale):
-                    ctx.violation(dict(sig, kind='remove-not-idempotent'), dict(detail, max_change=float(np.abs((res2 - res1) * mask).max())), case=None)
+                if not np.allclose((res2 - res1) * (mask != 0), 0, atol=tol * scale):
+                    ctx.violation(dict(sig, kind='remove-not-idempotent'), dict(detail, max_change=float(np.abs((res2 - res1) * (mask != 0)).max())), case=None)
                 res3 = lentil.zernike_remove(opd, mask, modes, **kw)
-                if not np.allclose(res3 * mask, 0, atol=tol * (1 + np.abs(opd).max())):
-                    ctx.violation(dict(sig, kind='pure-modes-not-removed'), dict(detail, max_residual=float(np.abs(res3 * mask).max())), case=None)
+                if not np.allclose(res3 * (mask != 0), 0, atol=tol * (1 + np.abs(opd).max())):
+                    ctx.violation(dict(sig, kind='pure-modes-not-removed'), dict(detail, max_residual=float(np.abs(res3 * (mask != 0)).max())), case=None)
+    # many modes on a small off-centre segment with global coordinates: independent but badly conditioned (cond ~ 1e7..1e9)
+    big = lentil.hexagon((128, 128), 9, shift=(30, -22), antialias=False)
+    grho, gtheta = lentil.zernike_coordinates(lentil.circle((128, 128), 60, antialias=False))
+    for nm in (11, 21, 28):
+        modes = list(range(1, nm + 1))
+        basis = lentil.zernike_basis(big, modes, vectorize=True, rho=grho, theta=gtheta)
+        cond = np.linalg.cond(basis[:, big.ravel() != 0])
+        ctx.case(('many-modes', nm))
+        if cond > 1e10:
+            nskip += 1
+            continue
+        c = nr.uniform(-1, 1, size=nm)
+        opd = lentil.zernike_compose(big, c, rho=grho, theta=gtheta)
+        fit = lentil.zernike_fit(opd, big, modes, rho=grho, theta=gtheta)
+        if not np.allclose(fit, c, rtol=0, atol=1e-12 * cond + 1e-10):
+            ctx.violation({'kind': 'fit-of-compose', 'nmodes': nm, 'ill_conditioned': True},
+                          {'modes': nm, 'cond': float(cond), 'max_abs_error': float(np.abs(fit - c).max())}, case=None)
     ctx.traces += len(subsets)
     ctx.skipped['ill-conditioned mode set on the mask (cond > 1e8)'] = nskip
     ctx.extra.update({'ordered_subsets_from_TLC': len(subsets), 'mode_assignments': assignments, 'masks': [n for n, _ in masks]})
